@@ -311,4 +311,5 @@ def run(model, rep):
     rule_c(model, rep)
     rule_d(model, rep)
     # unix_disabled.using(marker=...) must store the marker without touching the tables disable()/enable() work from
-    _c09.rule_d(model, _Renamed(rep, {"C09.d": "C18.e-using-sanitised-store"}, "C18.x-"))
+    _c09.rule_d(model, _Renamed(rep, {"C09.d": "C18.e-using-sanitised-store"}, "C18.x-", only=lambda s: "unix_disabled" in s or "django_disabled" in s))
+    rep.minimum("C18.e-using-sanitised-store", 1)
